@@ -122,20 +122,20 @@ theorem pres_probe {c : Cfg} {s : State} (h : Inv c s) (i off : Nat) (fore : Boo
     Pres c s (opWProbe c s i off) ∧ Pres c s (opRProbe c s i off) ∧ Pres c s (opGProbe c s i fore) := by
   refine ⟨?_, ?_, ?_⟩
   · unfold opWProbe
-    apply withSlot_elim _ _ _ (pres_same h _)
-    intro sl _ _ _ _
+    apply withLive_elim _ _ _ _ (pres_same h _) (pres_same h _)
+    intro sl _ _ _ _ _
     split
     · exact pres_same h _
     · split <;> exact pres_same h _
   · unfold opRProbe
-    apply withSlot_elim _ _ _ (pres_same h _)
-    intro sl _ _ _ _
+    apply withLive_elim _ _ _ _ (pres_same h _) (pres_same h _)
+    intro sl _ _ _ _ _
     split
     · exact pres_same h _
     · split <;> exact pres_same h _
   · unfold opGProbe
-    apply withSlot_elim _ _ _ (pres_same h _)
-    intro sl _ _ _ _
+    apply withLive_elim _ _ _ _ (pres_same h _) (pres_same h _)
+    intro sl _ _ _ _ _
     split
     · exact pres_same h _
     · simp only []; repeat' split
